@@ -23,7 +23,7 @@ ASSUMPTIONS = ["InMemMap without rtree index (rtree is not installed), SqliteMap
                "open finding F1 is recognised only by its exact signature (in-memory edges_closeto, finite radius, only missing edges "
                "whose start node lies outside the package's own box)"]
 TOLERANCES = {"planar_distance": "1e-11*max(1,|coord|)+1e-9*r", "latlon_node_m": 1e-6, "latlon_edge_m": "0.25+1e-6*L"}
-BUDGET = {"quick": {"shards": 8, "examples": 500}, "thorough": {"shards": 16, "examples": 8000}}
+BUDGET = {"quick": {"shards": 8, "examples": 1500}, "thorough": {"shards": 16, "examples": 8000}}
 
 
 def _tmp():
